@@ -75,6 +75,11 @@ CLAIMED["C10"] = ("5/C10",
    "Not covered: TWAP = time-weighted mean as a value, min/max bounds, reciprocity, precision (integral over histories). Trusted: Exp2/log2 accuracy, go/ssa.",
    "SSA origin-term rules + path-sensitive guard disjuncts")
 
+CLAIMED["C09"] = ("5/C09",
+   "Static rules over x/incentives decide: budget = coins - distributed over remaining epochs (1 if perpetual, paid-over - filled otherwise; 0 is an error); a lock's share is lock amount x remaining coin integer-divided by lock sum x remaining epochs with no round-up operation anywhere in the distribution; the receiver is the lock's reward receiver or, exactly when empty, its owner; the coins put on a pay-out entry (and handed to a concentrated pool's incentive record) are added to the distributed total (paired-argument rule), which is booked with one filled epoch; pay-outs leave the incentives module to the index-aligned receiver list; activation at start time precedes distribution; finishing only for non-perpetual gauges whose last epoch was filled.",
+   "Not covered: sum over epochs <= deposit, module balance >= remainders over histories, group gauges. Trusted: bank multi-send semantics, go/ssa.",
+   "SSA origin-term / paired-argument / rounding-class rules")
+
 NOT_YET = "check not built yet in this revision (static rule set under construction; see DESIGN.md section 5)"
 
 def main():
